@@ -38,6 +38,12 @@ DELEG = [
 ]
 
 
+def _ancestors(par, n):
+    while n in par:
+        n = par[n]
+        yield n
+
+
 def bound_args(call, callee):
     got = {}
     params = callee.params
@@ -91,6 +97,41 @@ def run(ctx):
                         ('windowed_iter', 'src'), ('unique_iter', 'src'), ('redundant', 'src'), ('bucketize', 'src')):
         onepass.check(ctx, prog.func('%s.%s' % (M, name)), param)
     onepass.first_seen(ctx, prog.func(M + '.unique_iter'))
+    from rules.common import check_get_none_presence
+    for name in ('redundant', 'unique_iter', 'bucketize'):
+        check_get_none_presence(ctx, prog.func('%s.%s' % (M, name)))
+    # windowed_iter with fill: an exhausted tee must not stop the staggering of the *later* tees, i.e. StopIteration
+    # from next(t) is handled inside the per-tee advance loop
+    wi = prog.func(M + '.windowed_iter')
+    par = {}
+    for n in ast.walk(wi.node):
+        for c in ast.iter_child_nodes(n):
+            par[c] = n
+    nexts = [n for n in ast.walk(wi.node) if isinstance(n, ast.Call) and call_name(n) == 'next']
+    if not nexts:
+        ctx.unknown('T9.tees', wi.fq, 'no next(tee) advance found', wi.loc)
+    zl = [n for n in ast.walk(wi.node) if isinstance(n, ast.Return) and isinstance(n.value, ast.Call) and 'zip_longest' in call_name(n.value)]
+    if zl:
+        # the advance loop feeding zip_longest: the last `for ... in enumerate(tees)` before it
+        zp = par.get(zl[0])
+        blk = next((b for b in (getattr(zp, f, None) for f in ('body', 'orelse', 'finalbody')) if isinstance(b, list) and zl[0] in b), [])
+        loops = [n for n in blk if isinstance(n, ast.For) and 'tees' in txt(n.iter) and n.lineno < zl[0].lineno]
+        fill_loop = loops[-1] if loops else None
+        ok = False
+        det = 'no advance loop before zip_longest'
+        if fill_loop is not None:
+            inner_next = [n for n in nexts if any(a is fill_loop for a in _ancestors(par, n))]
+            ok = bool(inner_next)
+            for n in inner_next:
+                tr = [a for a in _ancestors(par, n) if isinstance(a, ast.Try)]
+                inside = tr and any(a is fill_loop for a in _ancestors(par, tr[0])) and \
+                    any(isinstance(h.type, ast.Name) and h.type.id == 'StopIteration' for h in tr[0].handlers)
+                ok = ok and bool(inside)
+            det = 'next() calls in the fill-branch advance loop: %d' % len(inner_next)
+        ctx.ob('T9.tees', wi.fq, 'with fill, StopIteration from advancing one tee is handled inside the per-tee loop (later tees are '
+               'still staggered)', ok, loc=loc(wi, fill_loop) if fill_loop is not None else wi.loc, detail=det)
+    else:
+        ctx.unknown('T9.tees', wi.fq, 'no zip_longest(...) return found for the fill form', wi.loc)
     # split_iter
     sp = prog.func(M + '.split_iter')
     w, paths = paths_of(prog, sp)
